@@ -1769,6 +1769,7 @@ class PyVSim:
         self.w = {}
         self.state = {}
         self._benv = None
+        self._names = dict(name_ids)
         self.displayed = []      # ($display format, [(value bits, width, signed)...]) in execution order
         self.finished = False    # a $finish was executed
         for mname, md in mt.mems.items():
@@ -1787,12 +1788,15 @@ class PyVSim:
                 v_size(t)
                 self.state[i] = v_assign_value(t, {}, d["w"])
         self.assigns, self.combs, self.syncs = [], [], []
+        self.item_targets = []   # per module item: (kind, set of signal ids it assigns, has a concatenation target)
+        self.kinds = {name_ids[n_]: d_["kind"] for n_, d_ in mt.decls.items()}
         driven = {}          # wire id -> mask of the bits some continuous assignment drives
         for it in mt.items:
             if it[0] == "assign":
                 l, p = build_vtree(it, 1)
                 r, p = build_vtree(it, p)
                 self.assigns.append((v_size(l), v_size(r)))
+                self.item_targets.append(("assign",) + self._lhs_ids([("a", l, r)]))
                 parts = []
                 try:
                     self.lhs_parts(l, 0, parts)
@@ -1804,9 +1808,11 @@ class PyVSim:
             elif it[0] == "comb":
                 body, p = self.stmts(it, 2, int(it[1]))
                 self.combs.append(body)
+                self.item_targets.append(("comb",) + self._lhs_ids(body))
             else:
                 body, p = self.stmts(it, 3, int(it[2]))
                 self.syncs.append((int(it[1]), body))
+                self.item_targets.append(("sync",) + self._lhs_ids(body))
 
         # a `wire` (internal or output port) some of whose bits no continuous assignment drives is Z/X in Verilog,
         # whatever the simulator holds there (its reset value): name -> (width, mask of undriven bits)
@@ -1817,6 +1823,65 @@ class PyVSim:
                 miss = ((1 << d["w"]) - 1) & ~driven.get(i, 0)
                 if miss:
                     self.undriven[name] = (d["w"], miss)
+
+    def _lhs_ids(self, body):
+        """(signal ids assigned anywhere in the statements, True if some target is a concatenation of several signals)."""
+        out, cat = set(), [False]
+
+        def lhs(l):
+            if l.k == "id":
+                return {l.a[0]}
+            if l.k == "psel":
+                return lhs(l.a[2])
+            if l.k == "cat":
+                r = set()
+                for e in l.a:
+                    r |= lhs(e)
+                if len(r) > 1:
+                    cat[0] = True
+                return r
+            return set()        # memory word
+
+        def walk(ss):
+            for s in ss:
+                if s[0] in ("a", "e"):
+                    out.update(lhs(s[1]))
+                elif s[0] == "f":
+                    walk(s[2])
+                    walk(s[3])
+                elif s[0] == "w":
+                    for _, b in s[2]:
+                        walk(b)
+                    if s[3] is not None:
+                        walk(s[3])
+        walk(body)
+        return out, cat[0]
+
+    def driver_report(self):
+        """Structural reading of the text, independent of any value: a signal assigned from more than one module
+        item (several processes / continuous assignments race on it: the settled value is not determined by IEEE
+        1364), or a continuous assignment to a signal declared reg (illegal Verilog).  Returns (report or None,
+        in_cat_region): in_cat_region = every offending signal is (also) driven through a concatenation target
+        spanning several signals - the region of the open finding C01-sim-backend-cat-target."""
+        drivers = {}
+        via_cat = set()
+        for k, (kind, tg, cat) in enumerate(self.item_targets):
+            for t in tg:
+                drivers.setdefault(t, []).append((k, kind))
+                if cat:
+                    via_cat.add(t)
+        names = {i: n_ for n_, i in self._names.items()} if hasattr(self, "_names") else {}
+        multi = {t: l for t, l in drivers.items() if len(l) > 1}
+        reg_assign = {t for t, l in drivers.items() if self.kinds.get(t) in ("r", "or") and any(kd == "assign" for _, kd in l)}
+        bad = set(multi) | reg_assign
+        if not bad:
+            return None, False
+        rep = {"multiply_driven": {str(names.get(t, t)): [kd for _, kd in l] for t, l in sorted(multi.items())},
+               "continuous_assignment_to_reg": sorted(str(names.get(t, t)) for t in reg_assign),
+               "what": "the text drives a signal from several module items (processes race: the value is not determined "
+                       "by the Verilog semantics) or continuously assigns a reg (illegal Verilog); the simulated design "
+                       "has one driver semantics (last assignment wins)"}
+        return rep, bad <= via_cat
 
     def undriven_report(self):
         """Failing-input fragment for a text with partly undriven wires, or None."""
